@@ -950,6 +950,26 @@ def check_C14(ctx):
         cases.append(c); metas.append((layout, items))
         ctx.nontriv(logb + layout.encode()); ctx.tally("layout", layout)
         if k < 1: ctx.sample(dict(log=logb, date_format=layout))
+    # a sweep over date layouts: every order and subset of the year / month / day reference tokens with the literals the model admits between, before and
+    # after them (also none at all, doubled ones, a token twice: the model then declines and only a clean exit is required)
+    SPACES_IN_LAYOUTS = False      # set once Model/Dates.v treats a space of the layout as Go's time.skip does (a run of spaces, also an empty one at the end)
+    seps = ["", "/", "-", ".", " ", ":", "//", ". ", " - ", ":/"] if SPACES_IN_LAYOUTS else ["", "/", "-", ".", ":", "//", ":/", "./"]
+    for k in range(ctx.scale(250, 4000)):
+        toks = r.sample(["2006", "01", "02"], r.choice([1, 2, 3, 3, 3, 3]))
+        if r.random() < 0.05: toks.append(r.choice(toks))
+        layout = r.choice(["", "", "", "/", "."] + ([" "] if SPACES_IN_LAYOUTS else [])) if r.random() < 0.2 else ""
+        for j, t in enumerate(toks): layout += t + (r.choice(seps) if j + 1 < len(toks) else r.choice(["", "", "", ".", "/", "-"] + ([" "] if SPACES_IN_LAYOUTS else [])))
+        ds = [(2021, r.randint(1, 12), r.randint(1, 28)) for _ in range(r.randint(1, 3))]
+        items = []
+        for (y, m, d) in ds:
+            items.append(("heading", gen._fmt(layout, y, m, d)))
+            for _ in range(r.randint(1, 2)): items.append(("entry", r.choice(["bread", "tea", "a/b"]), gen.number(r, True)))
+        logb = gen.render_items(r, items, crlf=False, final_newline=True)
+        c = dict(files={"log.yaml": logb}, cmd=r.choice(["print", "print", "reg", "csv-log", "stats"]), f_fmt=layout, **NOCOLOR)
+        if c["cmd"] == "stats": c["files"]["food.yaml"] = b""; c["f_today"] = gen._fmt(layout, 2021, 12, 30)
+        if r.random() < 0.3: c["g_begin"] = gen._fmt(layout, *r.choice(ds))
+        cases.append(c); metas.append((layout, items)); ctx.tally("layout_sweep_tokens", len(toks))
+        ctx.nontriv(logb + layout.encode())
     # days whose midnight does not exist in the process time zone (daylight saving starts at 00:00): the printed day must still be the day read
     gaps = gen.midnight_gap_days()
     for k in range(min(len(gaps), ctx.scale(24, 200))):
@@ -969,7 +989,7 @@ def check_C14(ctx):
     # second round: the tool reads its own output back under the same options
     second = []; idx = []
     for j, (c, i) in enumerate(zip(cases, ires)):
-        if i["status"] != "ok": continue
+        if i["status"] != "ok" or c["cmd"] != "print": continue
         base = {k2: v for k2, v in c.items() if k2 not in ("files", "g_begin")}
         f2 = dict(c["files"], **{"log.yaml": i["stdout"]})
         second.append(dict(base, files=f2)); idx.append(j)
@@ -998,7 +1018,7 @@ def check_C14(ctx):
                 elif qa != qb and not (isinstance(qa, Fraction) or isinstance(qb, Fraction)):
                     ctx.violation("C14:quantity-changed", "food %r: %s became %s" % (fn, qa, qb), rep); break
     return dict(rule="random logs (names with inner punctuation and non-ASCII text, every layout variant, notes of both documented forms, repeated foods, specials) x 4 date formats x "
-                "optional period, plus logs around days whose midnight does not exist in the process time zone (10 zones): print on the real binary vs the extracted Coq model; then, on the implementation alone: print of the printed log is byte-identical, and csv log of the "
+                "optional period, a sweep over layouts built from the year / month / day tokens in every order and subset with the admitted literals, plus logs around days whose midnight does not exist in the process time zone (10 zones): print on the real binary vs the extracted Coq model; then, on the implementation alone: print of the printed log is byte-identical, and csv log of the "
                 "printed log has the same (day, food) rows with quantities within the two-decimal rounding of the original's. Non-trivial = every log, distinct by (bytes, layout)")
 
 # ---------------------------------------------------------------------------
